@@ -355,7 +355,13 @@ private:
     if (record_timestamp_ns >= _next_rotation_time)
     {
       _rotate_files(record_timestamp_ns);
-      _next_rotation_time = _calculate_rotation_tp(record_timestamp_ns, _config);
+
+      // Advance from the scheduled rotation point by whole periods, not from the timestamp of the
+      // record, otherwise the schedule drifts (e.g. "daily at 02:00" becomes "24h after the first
+      // record that followed 02:00")
+      uint64_t const rotation_period_ns = _calculate_rotation_tp(0, _config);
+      _next_rotation_time +=
+        (((record_timestamp_ns - _next_rotation_time) / rotation_period_ns) + 1) * rotation_period_ns;
       return true;
     }
 
